@@ -36,7 +36,9 @@ var (
 	// ErrUnknownResultType FSM returned a result of the wrong type.
 	ErrUnknownResultType = errors.New("unknown result type")
 
-	ErrTableExists             = errors.New("table already exists")
+	ErrTableExists = errors.New("table already exists")
+	// ErrInvalidTableName table name would alias an internal record of the table catalogue.
+	ErrInvalidTableName        = errors.New("invalid table name")
 	ErrManagerClosed           = errors.New("manager closed")
 	ErrLeaseNotAcquired        = errors.New("lease not acquired")
 	ErrNodeHostInfoUnavailable = errors.New("nodehost info unavailable")
